@@ -57,7 +57,7 @@ func runChild() {
 	case "bursts":
 		out = runBursts(*childSd, *childN)
 	case "producer":
-		out = runProducer(*childSd, *childN)
+		out = runProducer(*childSd, *childN, *childArg == "receiver")
 	default:
 		fmt.Fprintln(os.Stderr, "unknown child mode")
 		os.Exit(3)
